@@ -493,8 +493,10 @@ def vhdx_chain_content(case, files):
             if st == 6:
                 return files[d].content(mb * MBb + i * ss, ss)
             if st == 7:
-                sbmb = l["sb"][0][1]
-                bm = bytes.fromhex(l["bitmaps"][str(sbmb * MBb + b * (spb // 8))])
+                cr = ((1 << 23) * ss) // l["block_size"]
+                sbd = {int(k): v for k, v in l["sb"].items()}
+                sbmb = sbd[b // cr][1]
+                bm = bytes.fromhex(l["bitmaps"][str(sbmb * MBb + (b % cr) * (spb // 8))])
                 if (bm[i // 8] >> (i % 8)) & 1:
                     return files[d].content(mb * MBb + i * ss, ss)
                 continue
